@@ -72,7 +72,8 @@ ASSUMPTIONS = [
     "doubles are modelled as exact rationals, NaN and +-inf (both zeros are one value; NaN payloads are not "
     "distinguished); an empty `definition`/`unit` attribute text reads as 'not set'",
     "the file has the groups /data and /metadata (every NIX writer creates them); HDF5 link names are unique per "
-    "group (model hypothesis WF); id texts with blanks/underscores/sign characters are outside the is_uuid model",
+    "group (model hypothesis WF); the header id is a text attribute (is_uuid is modelled completely for texts: "
+    "NixModel/Py/UuidText.lean)",
 ]
 TRUSTED_EXTRA = ["harness/props/c18.py: h5py crafting of old-format files, `abstract()` (HDF5 -> model file schema), "
                  "the h5py namespace proxy that raises/kills at the k-th mode-'a' open inside nixio.cmd.upgrade",
@@ -735,6 +736,18 @@ def _uid(rng):
     return str(uuid.UUID(int=rng.getrandbits(128), version=4))
 
 
+def odd_ids(rng, u):
+    """header id texts in the corners of `uuid.UUID(text)`: 32 characters (after `urn:` / `uuid:`, braces and hyphens
+    are gone) that `int(text, 16)` accepts or just does not accept"""
+    h = u.replace("-", "")
+    fw = "".join(chr(0xff10 + int(c)) if c.isdigit() else c for c in h)       # full-width digits
+    return [" " + h[1:], h[:-1] + " ", "\t" + h[2:] + "\n", "+" + h[1:], "-" + h[1:], "0x" + h[2:], "0X_" + h[3:],
+            h[:15] + "_" + h[16:], h[:15] + "__" + h[17:], "_" + h[1:], h[:-1] + "_", "urn:uuid:" + u, "uuid:urn:" + u,
+            "{{" + u + "}}", "}" + u + "{", u.upper(), fw, h[:10] + "\u0663" + h[11:], h[:10] + "\u00a0" + h[11:],
+            "\u00a0" + h[1:], h[:31] + "g", h[:8] + " " + h[9:], "+ " + h[2:], "0x" + h, "ur" + "urn:" + "n:" + u,
+            h[:12] + "-" * 5 + h[12:], u[:-1] + "\u00b2"]
+
+
 def _name(rng, used, base=None):
     for _ in range(100):
         if base is not None and rng.random() < 0.5:
@@ -1008,10 +1021,10 @@ def gen_spec(rng, lib, size="small", collide=False, shape=None):
     else:
         ver = rng.choice([lib[:2] + [lib[2] + 1], [lib[0] + 1, 0, 0], list(lib) + [0], [lib[0], lib[1] + 1]])
         oldness = rng.choice([0.0, 0.5])
-    idmode = rng.choice(["none", "none", "valid", "valid", "empty", "junk", "braces", "hex32", "short"])
+    idmode = rng.choice(["none", "none", "valid", "valid", "empty", "junk", "braces", "hex32", "short", "odd"])
     u = _uid(rng)
     fid = {"none": None, "valid": u, "empty": "", "junk": "not-an-id", "braces": "{" + u + "}",
-           "hex32": u.replace("-", ""), "short": u[:-1]}[idmode]
+           "hex32": u.replace("-", ""), "short": u[:-1], "odd": rng.choice(odd_ids(rng, u))}[idmode]
     budget = [{"tiny": 4, "small": 12, "large": 30}[size]]
     spec = {"version": ver, "id": fid, "sections": [], "blocks": []}
     sused, bused = set(), set()
@@ -1316,7 +1329,8 @@ def uuid_cases(ctx):
         u = _uid(rng)
         t = rng.choice([u, u.replace("-", ""), "{" + u + "}", "urn:uuid:" + u, u[:-1], u + "0", u.upper(),
                         u.replace("a", "g"), "", "x", u[:8] + u[9:], "{{" + u, u[:13] + "-" + u[13:],
-                        "".join(rng.choice("0123456789abcdefABCDEF-{}gz") for _ in range(rng.choice([31, 32, 33, 36])))])
+                        "".join(rng.choice("0123456789abcdefABCDEF-{}gz") for _ in range(rng.choice([31, 32, 33, 36])))]
+                       + odd_ids(rng, u))
         out.append(["is_uuid", t])
     return out
 
